@@ -25,7 +25,7 @@ LEVEL = "exploration"
 BATCH = 1
 TIMEOUT = 600
 REQUIRED_OBS = ["reactions_round_tripped", "second_cycles_checked", "exports_rerendered", "rates_compared_after_export", "src_kida", "src_umist",
-                "src_leeds", "src_uclchem", "src_naunet", "src_api"]
+                "src_leeds", "src_uclchem", "src_naunet", "src_api", "edited_then_written_checked", "five_product_reactions"]
 RULE = ("networks of 8-25 gas-phase reactions read from kida / umist / leeds / uclchem / native files (every gas-phase type, signed, zero "
         "and extreme coefficients, windows) or built through the API; write -> read -> write; export (cvode dense) -> `naunet render` "
         "-> compile -> EvalRates at 3 parameter points vs the direct rendering; non-trivial = network has a non two-body type; distinct "
@@ -67,6 +67,12 @@ def gen_cases(tier):
                     x["reactants"] = ["OH"]
                 x["reactants"] = [n for n in x["reactants"] if not n.startswith("G")] or ["OH"]
                 x["products"] = [n for n in x["products"] if not n.startswith("G")] or ["O"]
+        # reactions that fill every product column of the exchange format (5) where the source format allows it
+        maxp = {"kida": 5, "leeds": 5, "naunet": 5, "api": 5, "uclchem": 4, "umist": 4}[src]
+        for x in r.sample(c["reactions"], min(3, len(c["reactions"]))):
+            if not x.get("co_special") and x.get("marker") is None:
+                pool_names = sorted({n for y in c["reactions"] for n in y["products"]} | {"H", "H2"})
+                x["products"] = [r.choice(pool_names) for _ in range(r.choice([maxp, maxp, maxp - 1]))]
         c["src"] = src
         c["export"] = True
         cases.append(c)
@@ -112,6 +118,7 @@ def run_case(case, ctx):
     orig = [(sorted(s.name for s in r.reactants), sorted(s.name for s in r.products), r.temp_min, r.temp_max,
              int(r.reaction_type) if r.reaction_type is not None else None, r.idxfromfile, r.source, r.alpha, r.beta, r.gamma) for r in net.reaction_list]
     untyped = [i for i, o in enumerate(orig) if o[4] is None]
+    obs["five_product_reactions"] += sum(1 for o in orig if len(o[1]) == 5)
     # ---------------- (A) write / read / write
     try:
         f1 = work / "w1.naunet"
@@ -144,7 +151,24 @@ def run_case(case, ctx):
                 w["mechanism"] = "C18/source-tag-read-back-with-padding-and-newline"
             viol.append(violation("second_cycle_not_identical", f"{case['src']}: second write differs from the first ({len(a)} vs {len(b)} lines)", **w))
         Species.reset()
-        Network(filelist=str(f2), fileformats="naunet")
+        net3 = Network(filelist=str(f2), fileformats="naunet")
+        # ---- a network read from the exchange format, then edited through the API, must be written as edited
+        if net3.reaction_list:
+            net3.reindex()
+            r0 = net3.reaction_list[0]
+            r0.alpha = 4.321e-7
+            r0.temp_max = 777.25
+            f3 = work / "w3.naunet"
+            net3.write(str(f3), "naunet")
+            Species.reset()
+            net4 = Network(filelist=str(f3), fileformats="naunet")
+            obs["edited_then_written_checked"] += 1
+            got = [(q.idxfromfile, q.alpha, q.temp_max) for q in net4.reaction_list]
+            want = [(i, float(f"{q.alpha:10.3e}"), float(f"{q.temp_max:9.2f}")) for i, q in enumerate(net3.reaction_list)]
+            if got != want:
+                k = next(i for i, (a, b) in enumerate(zip(got, want)) if a != b) if len(got) == len(want) else -1
+                viol.append(violation("edits_lost_on_write", f"{case['src']}: after reindex()/alpha/temp_max edits the written file reads back "
+                                      f"{got[k] if k >= 0 else len(got)} instead of {want[k] if k >= 0 else len(want)} (reaction {k})"))
     except Exception as e:
         w = {}
         if case["src"] == "leeds" and "starts with something unrecognizable" in str(e) and str(e).startswith("G") and \
